@@ -563,4 +563,48 @@ func NewDerivedVariable4$1$4$1
   requires compute != nil && *compute != nil && input1 != nil && *input1 != nil && input2 != nil && *input2 != nil && input3 != nil && *input3 != nil && input4 != nil
   ensures r0 == cfun4(currentValue, sel(vval, *input1), sel(vval, *input2), sel(vval, *input3), *input4)
 
+-- ---------------------------------------------------------------------------------------------------------------
+-- SubtractReactive: the occurrence counts (a ds.SetArithmetic, not synchronised with the result set) are read and updated
+-- inside the result set's Compute only - the result's lock orders "count" and "apply" of concurrent writers of the
+-- source and of the subtracted sets the same way - and every report is counted once: the source's as additions, a
+-- subtracted set's as subtractions. (what the counts make of a report is ds.SetArithmetic's business)
+global ncompute Int     -- Computes of the result set started by the running callback (ghost)
+global arithres Int     -- what the occurrence counts made of the running report (ghost)
+func Set.Compute(s, f) (r)
+  callback f(cur) (m)
+  modifies ghost(ds.smem), ghost(ds.salive), ghost(ds.madd), ghost(ds.mdel), ghost(arithres)
+  ensures r != nil
+
+func readableSet.SubtractReactive$1
+  instantiate ElementType: int
+  requires s != nil && *s != nil && setArithmetic != nil && *setArithmetic != nil && mutations != nil
+  modifies ghost(ds.smem), ghost(ds.salive), ghost(ds.madd), ghost(ds.mdel), ghost(arithres), ghost(ncompute)
+  ghost before call Set.Compute: assert arg0 == *s
+  ghost after call Set.Compute: ncompute = ncompute + 1
+  ensures ncompute == old(ncompute) + 1
+
+func readableSet.SubtractReactive$1$1
+  instantiate ElementType: int
+  requires setArithmetic != nil && *setArithmetic != nil && mutations != nil && *mutations != nil
+  modifies ghost(ds.smem), ghost(ds.salive), ghost(ds.madd), ghost(ds.mdel), ghost(arithres)
+  ghost before call SetArithmetic.Add: assert arg0 == *setArithmetic && arg1 == *mutations && len(arg2) == 0
+  ghost after call SetArithmetic.Add: arithres = result
+  ensures r0 == arithres
+
+func readableSet.SubtractReactive$2
+  instantiate ElementType: int
+  requires s != nil && *s != nil && setArithmetic != nil && *setArithmetic != nil && mutations != nil
+  modifies ghost(ds.smem), ghost(ds.salive), ghost(ds.madd), ghost(ds.mdel), ghost(arithres), ghost(ncompute)
+  ghost before call Set.Compute: assert arg0 == *s
+  ghost after call Set.Compute: ncompute = ncompute + 1
+  ensures ncompute == old(ncompute) + 1
+
+func readableSet.SubtractReactive$2$1
+  instantiate ElementType: int
+  requires setArithmetic != nil && *setArithmetic != nil && mutations != nil && *mutations != nil
+  modifies ghost(ds.smem), ghost(ds.salive), ghost(ds.madd), ghost(ds.mdel), ghost(arithres)
+  ghost before call SetArithmetic.Subtract: assert arg0 == *setArithmetic && arg1 == *mutations && len(arg2) == 0
+  ghost after call SetArithmetic.Subtract: arithres = result
+  ensures r0 == arithres
+
 @*/
